@@ -13,6 +13,8 @@ import (
 	"os"
 	osexec "os/exec"
 	"path/filepath"
+	"runtime/debug"
+	"runtime/pprof"
 	"sort"
 	"strconv"
 	"strings"
@@ -40,6 +42,7 @@ type knownFinding struct {
 }
 
 func main() {
+	debug.SetGCPercent(400)
 	if len(os.Args) < 2 {
 		fmt.Fprintln(os.Stderr, "usage: symgo check|replay|list ...")
 		os.Exit(2)
@@ -88,6 +91,7 @@ func cmdCheck(args []string) int {
 	caseFilter := fs.String("case", "", "run only cases whose label contains this")
 	budget := fs.Int("budget", 0, "seconds (0: per tier default)")
 	fixed := fs.String("inputs", "", "replay file: run the harness in concrete mode on these inputs")
+	cpuprof := fs.String("cpuprofile", "", "write a CPU profile of the exploration")
 	if len(args) < 1 {
 		fmt.Fprintln(os.Stderr, "usage: symgo check <property> [flags]")
 		return 2
@@ -231,8 +235,21 @@ func cmdCheck(args []string) int {
 		if v := optInt(h, *tier, "chanslack", 0); v > cfg.ChanSlack {
 			cfg.ChanSlack = v
 		}
+		if optInt(h, *tier, "goinline", 0) == 1 {
+			cfg.GoInline = true
+		}
+		if v := optInt(h, *tier, "maxpaths", 0); v > cfg.MaxPaths {
+			cfg.MaxPaths = v
+		}
+	}
+	if *cpuprof != "" {
+		f, _ := os.Create(*cpuprof)
+		pprof.StartCPUProfile(f)
 	}
 	results, stats, err := exec.Explore(prog.Prog, cfg, jobs, *workers)
+	if *cpuprof != "" {
+		pprof.StopCPUProfile()
+	}
 	if err != nil {
 		fmt.Println("INCONCLUSIVE engine:", err)
 		return 2
